@@ -39,6 +39,7 @@ func runC19(p *load.Program, r *oblig.Report) {
 	c19BrokerPlaceholders(p, r)
 	c19AwaitAll(p, r, "C19.R8 every part of a split request reaches the merger")
 	c19SplitAlwaysMerged(p, r, "C19.R12 a split request is answered through its merger")
+	c19EveryPartitionRouted(p, r, "C19.R14 every partition of the metadata is in the routing layout")
 	c06AwaitPositional(p, r, "C19.R13 the answer to part i of a split request is filed as part i")
 	c20RequestedOnly(p, r, "C19.R11 only what was requested is reported")
 	c19TopicErrorFirst(p, r, "C19.R6 ConsumerOffsets reports the coordinator's errors")
